@@ -258,4 +258,22 @@ theorem mem_insertPend_self (p : Pend) (s : List Pend) : p ∈ insertPend p s :=
   unfold insertPend
   simp
 
+/-- `restart` changes neither the pending set nor, therefore, the uniqueness of its keys. -/
+theorem uniqueKeys_restart (st : St) (W : Nat) (h : UniqueKeys st.pending) : UniqueKeys (restart st W).pending := h
+
+/-- Whatever `fetchAndUpdateGuardianSet` sends to the processor is the index and the key list the chain returned, unchanged
+(used by the `gsf` op of the driver; the clause `guardian-set-altered-before-processor` is C07's). -/
+theorem gsFetch_hands_on_chain_set (cur : Option Nat) (chain : Option (Nat × List Bytes)) (s : Nat × List Bytes)
+    (h : (gsFetch cur chain).2.1 = some s) : chain = some s ∧ cur ≠ some s.1 ∧ (gsFetch cur chain).1 = some s.1 := by
+  unfold gsFetch at h ⊢
+  cases chain with
+  | none => simp at h
+  | some c =>
+    obtain ⟨idx, keys⟩ := c
+    by_cases hc : cur = some idx
+    · simp [hc] at h
+    · simp only [hc, if_false, Option.some.injEq] at h ⊢
+      subst h
+      exact ⟨rfl, hc, rfl⟩
+
 end Whv.Evm
